@@ -88,7 +88,7 @@ def run_once(cfg: Config, chooser: Chooser) -> Obs:
         lab = labtech.Lab(storage=storage, runner_backend=backend, continue_on_failure=cfg.cof,
                           notebook=False, context=ctx)
         try:
-            res = lab.run_tasks(req, bust_cache=cfg.bust_cache, disable_progress=True, disable_top=True)
+            res = lab.run_tasks(req, **({'bust_cache': True} if cfg.bust_cache else {}), disable_progress=True, disable_top=True)
             outcome = ('return', res)
         except Spin as e:
             outcome = ('spin', e)
